@@ -602,6 +602,10 @@ class Exec:
             for i, operand in enumerate(node.values):
                 f = self.merge_bool(operand, cur)
                 parts.append(f)
+                fs = z3.simplify(f) if z3.is_expr(f) else f
+                if (is_and and (fs is False or (z3.is_expr(fs) and z3.is_false(fs)))) or \
+                        (not is_and and (fs is True or (z3.is_expr(fs) and z3.is_true(fs)))):
+                    break  # the connective is decided: Python would not evaluate the remaining operands
                 if i < len(node.values) - 1:
                     cur = cur.fork()
                     cur.pc.append(f if is_and else z3.Not(f))
